@@ -54,6 +54,7 @@ func newWorldFor(cfg RunCfg) (*World, map[string]int) {
 	}
 	w.RC = rc
 	w.ChunkMem = set&cbChunkMem != 0
+	w.CmpOf = cmpOf
 	return w, cmpOf
 }
 
@@ -108,6 +109,11 @@ func RunOps(cfg RunCfg, ops []Op) (*World, []string, *Mismatch) {
 		}
 		if got == "PANIC" {
 			return w, obs, &Mismatch{Step: i, Op: op.String(), Expected: "(no panic)", Observed: "PANIC: " + w.Panic, Kind: "panic"}
+		}
+		if op.K == "reopen" && op.H == 0 && got == "err" && len(w.Flushed) == 0 && w.File != nil && w.File.Len() > 0 {
+			// bytes in the file (Collection.Write, a torn first Flush) but no Flush ever completed: the
+			// documented "no roots" error is the right answer; the store in use stays as it is
+			continue
 		}
 		exp := w.Expect(op)
 		if exp == "?" {
